@@ -3258,7 +3258,8 @@ func (er *EVPNIPMSIRoute) DecodeFromBytes(data []byte) error {
 }
 
 func (er *EVPNIPMSIRoute) Serialize() ([]byte, error) {
-	buf := make([]byte, 20)
+	// RD(8) + ETag(4); the extended community is appended below
+	buf := make([]byte, 12)
 
 	if er.RD != nil {
 		tbuf, err := er.RD.Serialize()
